@@ -2,9 +2,11 @@
 
 real mode (values in `α` with `[R α]`):
   gcd        -> havA (the haversine argument a), gcdNear (the arcsin branch `sep`), gcdFar (the
-                antipodal branch `far`).  The final `np.where(a > 0.5, far, sep)` selection is outside the
-                arithmetic whitelist (R has no order); it is hand-modelled (Model.C17.gcdSelect) and
-                the theorems hold for BOTH branches, so any selection rule is covered.
+                antipodal branch `far`) in real mode, and gcdSelect: the final `return` (the selection
+                `np.where(cond, x, y)[()]`, or `np.select([c1, c2, …], [v1, v2, …])`) sliced out of the
+                source, rewritten as a conditional expression over the names a / far / sep and translated
+                in int mode at Float (comparisons live there; the class R has no order).  The obligation
+                `gcd_select_total` (for EVERY double a the result is far or sep) is about this definition.
   bear       -> bear
   translate  -> translateRa, translateDec
   dec2dec    -> dec2decNeg (the branch for negative angles,  d - m/60 - s/3600  on the three parsed fields:
@@ -27,12 +29,66 @@ def _fb(name, params, hand, ty='α'):
     return f"def {name} ({' '.join(params)} : {ty}) : {ty} := Aegean.Model.C17.{hand} {' '.join(params)}"
 
 
+
+
+def _select_slice():
+    """Write the selection expression of gcd's final `return` as a tiny Python function in the translator's int-mode
+    whitelist (a conditional expression) and return the path of that file.  np.where(c, x, y) -> (x if c else y);
+    np.select([c1..ck], [v1..vk], default=d) -> v1 if c1 else (v2 if c2 else ... d), d = 0.0 as numpy's default;
+    a trailing [()] is dropped.  Anything else is written as is (and is then reported UNTRANSLATABLE).
+    The source tree is $AEGEAN_REPO (default /repo), the same tree every caller of generate() passes."""
+    import ast
+    import hashlib
+    import os
+    import tempfile
+    repo = os.environ.get('AEGEAN_REPO', '/repo')
+    try:
+        tree = ast.parse(open(os.path.join(repo, _F)).read())
+        fn = [n for n in ast.walk(tree) if isinstance(n, ast.FunctionDef) and n.name == 'gcd'][0]
+        ret = [n for n in fn.body if isinstance(n, ast.Return)][-1].value
+
+        def conv(e):
+            if isinstance(e, ast.Subscript) and ast.unparse(e.slice) == '()':
+                return conv(e.value)
+            if isinstance(e, ast.Call) and ast.unparse(e.func) in ('np.where', 'numpy.where') and len(e.args) == 3:
+                return f"({conv(e.args[1])} if {ast.unparse(e.args[0])} else {conv(e.args[2])})"
+            if isinstance(e, ast.Call) and ast.unparse(e.func) in ('np.select', 'numpy.select') and len(e.args) >= 2 \
+                    and isinstance(e.args[0], (ast.List, ast.Tuple)) and isinstance(e.args[1], (ast.List, ast.Tuple)) \
+                    and len(e.args[0].elts) == len(e.args[1].elts):
+                default = e.args[2] if len(e.args) > 2 else None
+                for kw in e.keywords:
+                    if kw.arg == 'default':
+                        default = kw.value
+                out = ast.unparse(default) if default is not None else '0.0'
+                for c, v in reversed(list(zip(e.args[0].elts, e.args[1].elts))):
+                    out = f"({conv(v)} if {ast.unparse(c)} else {out})"
+                return out
+            return ast.unparse(e)
+        body = conv(ret)
+    except Exception as exc:           # no gcd / no return: leave something the translator rejects
+        body = f"untranslatable({str(exc)!r})"
+    text = "def gcd_select(a, far, sep):\n    sel = " + body + "\n    return sel\n"
+    d = os.path.join(tempfile.gettempdir(), 'verif-C17-slices')
+    os.makedirs(d, exist_ok=True)
+    path = os.path.join(d, 'gcd_select_' + hashlib.sha1(text.encode()).hexdigest()[:12] + '.py')
+    if not os.path.exists(path):
+        with open(path + '.tmp%d' % os.getpid(), 'w') as f:
+            f.write(text)
+        os.replace(path + '.tmp%d' % os.getpid(), path)
+    return path
+
+
 TARGETS = [
     dict(file=_F, func='gcd', mode='real', params={p: 'A' for p in _A4},
          outputs=[('a', 'havA'), ('sep', 'gcdNear'), ('far', 'gcdFar')],
          fallback={'havA': _fb('havA', _A4, 'havAHand'), 'gcdNear': _fb('gcdNear', _A4, 'gcdNearHand'),
                    'gcdFar': _fb('gcdFar', _A4, 'gcdFarHand')},
          all_params=_A4),
+    # the selection: absolute path, so os.path.join(repo, file) is this file whatever `repo` is
+    dict(file=_select_slice(), func='gcd_select', mode='int', params={'a': 'F', 'far': 'F', 'sep': 'F'},
+         outputs=[('sel', 'gcdSelect')],
+         fallback={'gcdSelect': 'def gcdSelect (a far sep : Float) : Float := Aegean.Model.C17.gcdSelect a far sep'},
+         all_params=['a', 'far', 'sep']),
     dict(file=_F, func='bear', mode='real', params={p: 'A' for p in _A4},
          returns='bear', fallback={'bear': _fb('bear', _A4, 'bearHand')}, all_params=_A4),
     dict(file=_F, func='translate', mode='real', params={p: 'A' for p in _T4},
